@@ -9,11 +9,11 @@ import (
 
 func init() {
 	register(&Property{
-		ID:        "C17",
-		Title:     "Optimized regex matching equals regular-expression semantics",
-		Technique: "shape rules for the frame in which the optimisations run: how the reference regexp is built (anchors, dot-all, same parse flags as the tree that is optimised), that pre-filters can only reject and every accepting answer comes from a complete matcher or the reference regexp, when the finite value set is exposed, and that it is handed out as a copy",
-		DesignRef: "DESIGN.md §5 C17",
-		Level: "Decides only the frame, not the optimisations: the reference expression is compiled as ^(?s:…)$ from the tree parsed with Perl|DotNL (the same tree the optimisers inspect); in the compiled match function the prefix/suffix/contains pre-filters return only `false`, and every other return is the single set value's equality, the complete string matcher, or the reference regexp; the case-insensitive prefix path ends in the reference regexp; the set of matching values is stored only for case-sensitive sets and SetMatches returns a copy of it; the literal-alternation fast path is used only when it produced a matcher.",
+		ID:             "C17",
+		Title:          "Optimized regex matching equals regular-expression semantics",
+		Technique:      "shape rules for the frame in which the optimisations run: how the reference regexp is built (anchors, dot-all, same parse flags as the tree that is optimised), that pre-filters can only reject and every accepting answer comes from a complete matcher or the reference regexp, when the finite value set is exposed, and that it is handed out as a copy",
+		DesignRef:      "DESIGN.md §5 C17",
+		Level:          "Decides only the frame, not the optimisations: the reference expression is compiled as ^(?s:…)$ from the tree parsed with Perl|DotNL (the same tree the optimisers inspect); in the compiled match function the prefix/suffix/contains pre-filters return only `false`, and every other return is the single set value's equality, the complete string matcher, or the reference regexp; the case-insensitive prefix path ends in the reference regexp; the set of matching values is stored only for case-sensitive sets and SetMatches returns a copy of it; the literal-alternation fast path is used only when it produced a matcher.",
 		Note:           "Trusted: go/packages, go/types, go/cfg; rule tables in checker/c17.go.",
 		Covers:         "model/labels: NewFastRegexMatcher, FastRegexMatcher.compileMatchStringFunction, FastRegexMatcher.MatchString, FastRegexMatcher.SetMatches.",
 		NotCover:       "that each optimiser (optimizeAlternatingLiterals, findSetMatches, optimizeConcatRegex, stringMatcherFromRegexp, equalMultiStringMapMatcher, toNormalisedLower) accepts exactly the language of its sub-expression — a language-equivalence question over runtime patterns, which is the substance of this property.",
